@@ -2,6 +2,10 @@
    /repo/list/dlist.go that queue/lqueue.go and stack/lstack.go call:
    InitDList, Append, Shift, Pop, First, Last, Find, Clear, Val.
    (Shared by C05 and C06; C19 has its own, complete, model of DList.)
+   Source state: list/dlist.go as of /repo commit b974c31 — of the four DList
+   repairs (Unshift, InsertBefore, Delete, Shift) only the one to Shift touches a
+   method transcribed here: after moving the second node into the list struct it
+   now clears l.prev and re-points l.next.prev.
 
    Memory model (DESIGN §3 "Pointers"):
      * [mem] = list of nodes, the address of a node is its index; allocation
@@ -146,6 +150,14 @@ Definition dl_shift (m : mem) : res (mem * addr) :=
       let head := nx in
       (* l.DoubleNode = *head *)
       do m <- copy_node m L head;
+      (* l.prev = nil *)
+      do m <- set_prev m L None;
+      (* if l.next != nil { l.next.prev = &l.DoubleNode } *)
+      do l <- load m L;
+      do m <- match nnext l with
+              | None => Ok m
+              | Some nn => set_prev m nn (Some L)
+              end;
       (* return &node *)
       Ok (m, node)
   end.
